@@ -59,6 +59,20 @@ pub fn run(_a: &HashMap<String, String>) -> (usize, usize) {
         let _ = p.wait();
         report("pollerr limit30s", v);
     }
+    // 1c. a limit beyond 2^32 ms must not fire after a few milliseconds
+    {
+        let mut p = spawn("sleep:700", false, true, false);
+        let t0 = Instant::now();
+        let r = p.communicate_start(None).limit_time(Duration::from_millis((1u64 << 32) + 50)).read();
+        let mut v = vec![];
+        if let Err(e) = &r {
+            if e.kind() == std::io::ErrorKind::TimedOut {
+                v.push(format!("C04/timeout-only-when-elapsed: a limit of 2^32+50 ms reported a timeout after {:?}", t0.elapsed()));
+            }
+        }
+        let _ = p.wait();
+        report("huge limit", v);
+    }
     // 2. flooding child, 300 ms limit: must return by the limit plus one bounded step
     {
         let mut p = spawn("flood", false, true, false);
